@@ -476,3 +476,44 @@ _base_scn_uh = scenarios
 
 def scenarios():
     return _base_scn_uh() + [packet_update_hlen()]
+
+
+def userid_copy():
+    """UserID.__copy__: the copy serialises to the same octets as the original - also for a user id whose octets are not UTF-8 (read
+    with the Latin-1 fallback and written back through it)"""
+    label = 'C08/UserID.__copy__'
+    U = P + 'UserID'
+
+    def gen(repo):
+        r = scn.Run(repo, U, '__copy__', label)
+        ex, st = r.ex, r.st
+        TEXT = z3.Const('USER_ID_CODE_POINTS', B)
+        fb = z3.Bool('read_with_the_latin1_fallback')
+        st.pc += [z3.Implies(fb, z3.And(*[z3.BoolVal(True)]))]
+        k = E.fresh('k')
+        st.facts.append(z3.Implies(z3.And(k >= 0, k < z3.Length(TEXT)), z3.And(TEXT[k] >= 0, TEXT[k] < 256)))
+        r.set('uid', 'uid', E.VStr(z=TEXT, cp=True))
+        r.set('uid', '_encoding_fallback', E.VBool(fb))
+        r.set('uid', 'header', E.VObj('pgpy.packet.types.Header', 'hdr'))
+        r.hook('pgpy.packet.types.Header', '__copy__', scn.method_hook(lambda ex, st, o, a: [(st, E.VObj('pgpy.packet.types.Header', 'hdr-copy'))]))
+        r.hook(U, '__call__', lambda ex, st, c, a: [(st, E.VObj(U, 'copy'))])
+        for pi, (s, v) in enumerate(r.call(E.VObj(U, 'uid'), [])):
+            if isinstance(v, E.Raise):
+                r.oblige(s, 'safety(%s)/p%d' % (v.exc.split(':')[0], pi), z3.BoolVal(False), v.where)
+                continue
+            r.oblige(s, 'a-new-packet-with-a-copy-of-the-header/p%d' % pi,
+                     z3.BoolVal(isinstance(v, E.VObj) and v.ref == 'copy' and isinstance(s.heap.get(('copy', 'header')), E.VObj) and s.heap[('copy', 'header')].ref == 'hdr-copy'))
+            t = s.heap.get(('copy', 'uid'))
+            r.oblige(s, 'same-text/p%d' % pi, t.z == TEXT if isinstance(t, E.VStr) and t.z is not None else z3.BoolVal(False))
+            f2 = s.heap.get(('copy', '_encoding_fallback'))
+            r.oblige(s, 'written-back-through-the-same-codec-as-the-original(so-the-same-octets)/p%d' % pi,
+                     ex.truth(f2, s) == fb if f2 is not None else z3.BoolVal(False))
+        return r.result()
+    return Scenario(label, U + '.__copy__', gen, props=('C08', 'C14', 'C07'))
+
+
+_base_scn_uc = scenarios
+
+
+def scenarios():
+    return _base_scn_uc() + [userid_copy()]
